@@ -279,6 +279,10 @@ func c13TemplateFile(r *rand.Rand, idx int) Case {
 	}
 	obs := "None"
 	if err == nil {
+		// (the output NAME is rendered against the same scope as the text: below a path that has no "outname" it spells "<no value>")
+		if op.Path != nil && strings.Contains(op.Output, "{{") {
+			out = filepath.Join(dir, "<no value>ut.txt")
+		}
 		bs, rerr := os.ReadFile(out)
 		if rerr != nil {
 			fail = append(fail, "templateFile succeeded but the output file cannot be read: "+rerr.Error())
